@@ -131,6 +131,8 @@ def check_accounting(case, workdir):
         r.label("source-on-subgrid-boundary")
     if case["source"].get("zero_luminosity"):
         r.label("discrete-source-without-luminosity")
+    if case["continuous"]["kind"] != "none" and case["threads"] >= 8 and case["iterations"] >= 6:
+        r.label("continuous-endgame(>=8-threads,6-iterations)")
     if run["cpu_exceeded"]:
         recs = cmirun.parse_kv_lines(os.path.join(workdir, "verif_accounting.txt"))
         r.schedule_dependent = case["threads"] > 1
@@ -209,9 +211,22 @@ def check_accounting(case, workdir):
 
 @st.composite
 def cases(draw):
+    skind = draw(st.sampled_from(["single", "single", "table", "table", "none"]))
+    ckind = draw(st.sampled_from(["none", "none", "none", "Isotropic", "DistantStar", "Planar"]))
+    if skind == "none" and ckind == "none":
+        skind = "single"
+    # end-of-iteration window (defect F29): with a continuous source the last
+    # source task queues one flush task per thread.  They are no-ops that can
+    # still be pending when the last packet terminates if every source task
+    # filled its buffer exactly (a multiple of 200 packets, one subgrid) -
+    # many threads and several iterations then make a dropped task and a hang
+    # in the next iteration likely
+    endgame = ckind != "none" and draw(st.integers(0, 2)) == 0
     ncell1 = st.sampled_from([4, 6, 8, 12])
     ncell = [draw(ncell1), draw(ncell1), draw(ncell1)]
     nsub = [draw(st.sampled_from([d for d in (1, 2, 3, 4) if n % d == 0])) for n in ncell]
+    if endgame and draw(st.booleans()):
+        nsub = [1, 1, 1]
     periodic = [draw(st.booleans()) and draw(st.booleans()) for _ in range(3)]
     sides = [L * draw(st.sampled_from([1.0, 1.0, 0.5, 2.0])) for _ in range(3)]
     anchor = [-0.5 * s for s in sides]
@@ -235,10 +250,6 @@ def cases(draw):
                 pos.append(anchor[i] + sides[i] * draw(st.floats(0.02, 0.98, allow_subnormal=False)))
         return pos
 
-    skind = draw(st.sampled_from(["single", "single", "table", "table", "none"]))
-    ckind = draw(st.sampled_from(["none", "none", "none", "Isotropic", "DistantStar", "Planar"]))
-    if skind == "none" and ckind == "none":
-        skind = "single"
     on_b = draw(st.booleans()) and draw(st.booleans())
     source = {"kind": skind, "on_boundary": on_b}
     if skind == "single":
@@ -266,6 +277,12 @@ def cases(draw):
                              st.sampled_from([199, 200, 201, 400, 1000, 2001])))
     diffuse = draw(st.sampled_from(["None", "None", "FixedValue", "Physical"]))
     threads = draw(st.sampled_from([1, 2, 2, 3, 4, 4, 8, 8, 12, 16]))
+    if endgame:
+        threads = draw(st.sampled_from([8, 12, 16, 16]))
+        photons = draw(st.sampled_from([200, 200, 400, 999, 1000, 2001, 4999]))
+        if draw(st.booleans()):
+            skind = "none"
+            source = {"kind": "none", "on_boundary": False}
     tight = draw(st.booleans()) and draw(st.booleans())
     nsubt = nsub[0] * nsub[1] * nsub[2]
     if tight:
@@ -277,7 +294,8 @@ def cases(draw):
         "blocks": blocks, "source": source, "continuous": cont, "photons": photons,
         # continuous sources end every iteration with a race-prone hand-over
         # (last source task flushes the partially filled buffers): more iterations
-        "iterations": draw(st.integers(1, 3)) if ckind == "none" else draw(st.integers(2, 6)),
+        "iterations": (draw(st.integers(1, 3)) if ckind == "none"
+                       else (6 if endgame else draw(st.integers(2, 6)))),
         "seed": draw(st.integers(1, 10 ** 6)),
         "copy_level": draw(st.sampled_from([0, 0, 1, 2, 3])), "diffuse": diffuse,
         "reemission_probability": draw(st.sampled_from([0.364, 0.9, 0.05])),
@@ -290,8 +308,9 @@ def cases(draw):
 SUBS = [
     pbt.Sub("accounting_task_based", cases(), check_accounting, quick=256, thorough=6000,
             shrink_budget=10,
-            rule="cells {4,6,8,12}^3, subgrids dividing them (1..4 per axis), periodicity, 1-3 density blocks (tau ~ 0.6..60), single / 2-5 tabulated / no discrete sources (25% exactly on a subgrid boundary; next to a continuous source 25% without luminosity, which switches them off), none / isotropic / distant-star / planar continuous source, diffuse field none / fixed value / physical, 1..5000 packets (incl. < number of sources, buffer size +-1), 1-3 iterations, copy level 0-3, 1..16 threads, seeded jitter, comfortable or tight pools; non-trivial: >=2 threads, >=2 subgrids, packets not a multiple of the buffer size",
-            floors={"multi-threaded": 0.5, "several-subgrids": 0.4}),
+            rule="cells {4,6,8,12}^3, subgrids dividing them (1..4 per axis), periodicity, 1-3 density blocks (tau ~ 0.6..60), single / 2-5 tabulated / no discrete sources (25% exactly on a subgrid boundary; next to a continuous source 25% without luminosity, which switches them off), none / isotropic / distant-star / planar continuous source, diffuse field none / fixed value / physical, 1..5000 packets (incl. < number of sources, buffer size +-1), 1-3 iterations (2-6 with a continuous source; one third of those cases are the end-of-iteration class: 8-16 threads, {200,400,999,1000,2001,4999} packets, 6 iterations, half of them with a single subgrid), copy level 0-3, 1..16 threads, seeded jitter, comfortable or tight pools; non-trivial: >=2 threads, >=2 subgrids, packets not a multiple of the buffer size",
+            floors={"multi-threaded": 0.5, "several-subgrids": 0.4,
+                    "continuous-endgame(>=8-threads,6-iterations)": 0.08}),
 ]
 
 if __name__ == "__main__":
